@@ -194,6 +194,7 @@ Section Hist.
     - (* LCopy *)
       destruct (mget (lh_map s) vpn) as [id|]; [|exact G]. cbn [fst]. unfold on_list.
       apply good_lupd; [exact G|]. intros [p L] I. cbn [fst snd]. apply inv_rrun; [exact I|repeat constructor].
+    - (* LHsCheck *) exact G.
   Qed.
 
   Lemma good_lrun ops : forall s, good s -> Forall plain_src ops -> good (lrun c s ops).
